@@ -159,7 +159,7 @@ impl Empirical {
         };
         let mut high = 2.0;
         let mut low = -high;
-        while self.cdf(low) > p {
+        while self.cdf(low) >= p {
             low = low + low;
         }
         while self.cdf(high) < p {
